@@ -115,6 +115,14 @@ class World(object):
         self.links['m'] = MultiLink([c['c00'], c['c01']], [c['c20'], c['c21']], forwards=fwd, backwards=bwd)
         self.atoms['m'] = [(['c00', 'c01'], 'c20', 0.0), (['c00', 'c01'], 'c21', 0.0),
                            (['c20', 'c21'], 'c00', 0.0), (['c20', 'c21'], 'c01', 0.0)]
+        # an ASYMMETRIC two-way MultiLink: two inputs, one output, and a backwards function that returns both inputs
+        def fwd1(p, q):
+            return aff('c00', 'c20')(p) + 0 * q
+
+        def bwd2(r):
+            return aff('c20', 'c00')(r), aff('c20', 'c01')(r)
+        self.links['n'] = MultiLink([c['c00'], c['c01']], [c['c20']], forwards=fwd1, backwards=bwd2)
+        self.atoms['n'] = [(['c00', 'c01'], 'c20', 0.0), (['c20'], 'c00', 0.0), (['c20'], 'c01', 0.0)]
         if n > 3:
             one('h', 'c30', 'c01')
             self.links['i'] = LinkTwoWay(c['c31'], c['c10'], aff('c31', 'c10'), aff('c10', 'c31'))
@@ -342,6 +350,7 @@ def tiers(tier):
                 ('detour', Scenario(3, ['a', 'x', 'y', 'b'], comps=('c10',), data=(1,), delay=False), 7),
                 ('multi', Scenario(3, ['m', 'a', 'b', 'c'], comps=('c01', 'c20'), data=(2,), delay=False), 5),
                 ('detour2', Scenario(3, ['a', 'y', 'f', 'w'], comps=(), data=(), delay=False), 5),
+                ('multi2', Scenario(3, ['n', 'a', 'b'], comps=('c01', 'c20'), data=(2,), delay=False), 5),
                 ('hubdelay', Scenario(3, ['a', 'b'], comps=('c10', 'c11'), data=(), delay='hub'), 6),
                 ('derived', Scenario(3, ['k', 'c', 'e'], comps=('c00', 'g0', 'c21'), data=(0, 2), delay=False), 5),
                 ('derived-inv', Scenario(3, ['z', 'k', 'e'], comps=('c01', 'h0'), data=(0, 2), delay=False), 5)]
@@ -350,6 +359,7 @@ def tiers(tier):
             ('detour', Scenario(3, ['a', 'x', 'y', 'b', 'e'], comps=('c10', 'c01'), data=(1, 2)), 7),
             ('multi', Scenario(3, ['m', 'a', 'b', 'c', 'f'], comps=('c01', 'c20', 'c11'), data=(1, 2)), 6),
             ('detour2', Scenario(3, ['a', 'y', 'f', 'w', 'x'], comps=('c10',), data=(1,)), 6),
+            ('multi2', Scenario(3, ['n', 'a', 'b', 'c'], comps=('c01', 'c20', 'c00'), data=(0, 2)), 6),
             ('hubdelay', Scenario(3, ['a', 'b', 'c'], comps=('c10', 'c11', 'c01'), data=(1,), delay='hub'), 7),
             ('derived', Scenario(3, ['k', 'c', 'e', 'a'], comps=('c00', 'g0', 'c21'), data=(0, 2)), 6),
             ('derived-inv', Scenario(3, ['z', 'k', 'e', 'b'], comps=('c01', 'h0', 'c21'), data=(0, 2)), 6)]
